@@ -530,6 +530,8 @@ def main(tier):
     rep.attempt(probepure.check_avail_unsigned, rep, mod, _c19.field_offsets('struct isal_zstream', ['avail_in', 'avail_out']), _c19.field_offsets('struct inflate_state', ['avail_in', 'avail_out']))
     import c02
     rep.attempt(c02.check_rollback, rep)      # the output-overflow exits of the asm decoders (R-PARKED-EXITCODE, R-PARK-EOB-ADJUST)
+    import rollbackpair
+    rep.attempt(rollbackpair.check, rep, mod, _c19.field_offsets('struct inflate_state', rollbackpair.IN_FIELDS + rollbackpair.OUT_FIELDS))
     import asmlin, c19
     rep.attempt(asmlin.check, rep, 'INFLATE', 6, c19.field_offsets('struct inflate_state', ['next_in', 'avail_in', 'next_out', 'avail_out', 'total_out']), r'^decode_huffman_code_block_stateless_0\d$')
     import siblings, fieldinit
